@@ -220,8 +220,10 @@ def main():
                 saw = [i + 1 for i, u in enumerate(ups) if [e for e in u.events[marks[i]:] if e["kind"] == "query" and (e.get("qname") or "").lower() == qname.lower()]]
                 leg.eval()
                 rc = (dnslib.parse(r).rcode & 0xF) if r is not None else None
-                # the last query repeats an earlier name in another spelling: it may be answered from the cache (no upstream) or forwarded to 2
-                ok = rc == want_rc and (saw == [upstream] if upstream is not None else saw in ([], [2]))
+                # what matters: the right response code, and no OTHER route's server ever sees the name.  Whether the route's own
+                # server sees it this time is the cache's business (a repeat in another spelling, or a server that remembers a name
+                # error of the same route, may answer without asking again)
+                ok = rc == want_rc and saw in ([], [upstream if upstream is not None else 2])
                 leg.cls("nested-cacheable|%s|%s" % ("nx" if want_rc == NX else "noerror", "ok" if ok else "bad"))
                 if not ok:
                     leg.violation("C15/nested-routes-with-cacheable-answers/%s" % ("wrong-rcode" if rc != want_rc else "wrong-upstream"),
